@@ -36,7 +36,9 @@ Inductive step :=
 | SDrop (t : tstate)   (* the device is gone: the transport raises ScrapliConnectionError *)
 | SStall (t : tstate)  (* the device is silent: the timeout fires; decorators._handle_timeout closes
                           the transport and raises ScrapliTimeout *)
-| SFail (e : exc).     (* the hook / the with-body raises by itself *)
+| SFail (e : exc)      (* the hook / the with-body raises by itself *)
+| SStallOpen (t : tstate).  (* the device is silent under Settings.NO_TERMINATE_ON_TIMEOUT: _handle_timeout
+                          raises ScrapliTimeout and does NOT close the transport *)
 
 Definition run_step (s : step) (c : conn) : conn * res :=
   match s with
@@ -48,6 +50,7 @@ Definition run_step (s : step) (c : conn) : conn * res :=
          | SDrop t => (mkC true (log_open c) t, Raised EConnError)
          | SStall t => (mkC false (log_open c) t, Raised ETimeout)
          | SFail e => (c, Raised e)
+         | SStallOpen t => (mkC true (log_open c) t, Raised ETimeout)
          end
   end.
 
@@ -325,7 +328,7 @@ Definition all_ok (ss : list step) : bool := forallb step_ok ss.
 Definition hook_all_ok (h : option (list step)) : bool :=
   match h with None => true | Some ss => all_ok ss end.
 Definition steps_tn (ss : list step) (t : tstate) : tstate :=
-  fold_left (fun t s => match s with SOk t' | SDrop t' | SStall t' => t' | SFail _ => t end) ss t.
+  fold_left (fun t s => match s with SOk t' | SDrop t' | SStall t' | SStallOpen t' => t' | SFail _ => t end) ss t.
 Definition hook_steps (h : option (list step)) : list step := match h with None => [] | Some ss => ss end.
 (* an environment in which the device answers and nothing fails while opening *)
 Definition env_opens (e : env) : bool :=
